@@ -70,3 +70,16 @@ Print Assumptions C11_orientation_reverses.
 Print Assumptions C11_penalty_mask.
 Print Assumptions C11_fraction_in_unit_interval.
 Print Assumptions C11_target_indices_are_stable.
+
+(* ---------------------------------------------------------------------------------------------------------------
+   What the orientation test computes (theories/Proof_Area.v): the signed area does not depend on where the wall is, and for a
+   triangle `clockwise` is true exactly when the third vertex lies to the right of the directed line through the first two. *)
+From HT Require Import Proof_Area.
+
+Theorem C11_orientation_is_translation_invariant : forall a b (w : list pt), clockwise (map (shift a b) w) = clockwise w.
+Proof. exact clockwise_translation_invariant. Qed.
+
+Theorem C11_orientation_of_a_triangle : forall p q r, clockwise [p; q; r] = true <-> cross3 p q r < 0.
+Proof. exact triangle_clockwise. Qed.
+
+Print Assumptions C11_orientation_is_translation_invariant.
